@@ -107,7 +107,11 @@ func Build(doc *ast.SchemaDocument) *Model {
 	for _, d := range doc.Directives {
 		if old := m.Directives[d.Name]; old != nil {
 			if builtinDirectives[d.Name] {
-				continue // a built-in directive may be declared again; the first declaration wins
+				// a built-in directive may be declared again; the document's own declaration
+				// then replaces the prelude's (the library's behaviour: the last one wins) and is
+				// checked like any other definition
+				m.Directives[d.Name] = d
+				continue
 			}
 			m.bad("unique-directive-names", "directive @"+d.Name+" is defined more than once", "directive:"+d.Name)
 			continue
